@@ -26,7 +26,7 @@
       decodes through (unqualifiedAttrReader: attributes in a namespace, declarations
       xmlns:p included, are left out) - the code before the repair of the defect
       "namespace declaration taken for an attribute". *)
-From GW Require Import Base CardXml CardWire CardWireProofs CardWireProofs2.
+From GW Require Import Base CardXml CardWire CardWireProofs CardWireProofs2 CardWireAgree.
 
 (** The reference is coherent: a written request is read back as itself ... *)
 Theorem C09_rfc_codec : forall r, wf_request r = true -> rfc_read (rfc_write r) = Some r.
@@ -212,3 +212,60 @@ Theorem C09_nsdecl_as_attribute_repaired :
    handle_report kf_up kf_path kf_doc_refused = Ok (CallQuery kf_path (mkQ dr_zero [] "" 0%Z))).
 Proof. exact nsdecl_as_attribute_repaired. Qed.
 Print Assumptions C09_nsdecl_as_attribute_repaired.
+
+(** The two Coq models of the CardDAV server's REPORT decoding describe the same function.
+    [ST] = ServerTotal.v (C13): request -> status / panic, written independently over
+    its own tree type.  [tr] translates C09's trees into C13's (onto: [tr (untr T) = T]);
+    [st_decode] is the decoding stage of ServerTotal.card_handle_report (unmarshal through
+    the attribute filter, Prop.Decode of address-data, decodePropFilter, the limit test),
+    [st_continue] the rest (backend answer, response building), and
+    ServerTotal.serve = finish (st_continue (st_decode ...)) for a REPORT
+    ([C09_server_total_factored]).  [same_decision r s]: [r = Ok (CallQuery path _)] and
+    [s = StQuery _]; or both the empty multistatus; or [Ok (CallsGet l)] and
+    [StMultiget _ hrefs] with [up] mapping the href texts ServerTotal keeps to the
+    paths of [l] in order; or [Err c] and [StBad] with [c = 400]; no other combination -
+    hence each alternative on one side iff the corresponding one on the other, for
+    every body tree (whatever its root), addressbook-query and addressbook-multiget. *)
+Theorem C09_agrees_with_server_total_model : forall up path t,
+  same_decision up path (handle_report up path t) (st_decode (fun s => is_some (up s)) (tr t)).
+Proof. exact models_agree. Qed.
+Print Assumptions C09_agrees_with_server_total_model.
+
+(** the same, quantified over ServerTotal's trees *)
+Theorem C09_agrees_with_server_total_model_st : forall up path T,
+  same_decision up path (handle_report up path (untr T)) (st_decode (fun s => is_some (up s)) T).
+Proof. exact models_agree_st. Qed.
+Print Assumptions C09_agrees_with_server_total_model_st.
+
+Theorem C09_tree_translation_onto : forall T, tr (untr T) = T.
+Proof. exact tr_untr. Qed.
+Print Assumptions C09_tree_translation_onto.
+
+(** ServerTotal's handler is its decoding stage followed by the rest *)
+Theorem C09_server_total_factored : forall env r T,
+  ST.ae_has_backend env = true -> String.eqb (ST.r_path r) "/.well-known/carddav" = false ->
+  ST.r_method r = "REPORT" -> ST.is_content_xml r = true -> ST.r_xml r = ST.XTree T ->
+  ST.serve (ST.CCard env r) = ST.finish (st_continue env (st_decode (ST.r_url_ok r) T)).
+Proof. exact st_factor_serve. Qed.
+Print Assumptions C09_server_total_factored.
+
+(** ... so the response ServerTotal computes for a REPORT is the continuation of a stage
+    that makes the decision of CardWire.handle_report *)
+Theorem C09_agrees_with_server_total_response : forall env r up path t,
+  ST.ae_has_backend env = true -> String.eqb (ST.r_path r) "/.well-known/carddav" = false ->
+  ST.r_method r = "REPORT" -> ST.is_content_xml r = true -> ST.r_xml r = ST.XTree (tr t) ->
+  (forall s, ST.r_url_ok r s = is_some (up s)) ->
+  exists stage, ST.serve (ST.CCard env r) = ST.finish (st_continue env stage) /\
+                same_decision up path (handle_report up path t) stage.
+Proof. exact models_agree_serve. Qed.
+Print Assumptions C09_agrees_with_server_total_response.
+
+(** the two models of strings.TrimSpace + strconv.ParseUint behind nresults agree *)
+Theorem C09_nresults_readers_agree : forall s,
+  match unmarshal_uint s, ST.parse_uint s with
+  | Ok x, Some y => y = x
+  | Err c, None => c = 400%N
+  | _, _ => False
+  end.
+Proof. exact CardWireUint2.uint_agree_all. Qed.
+Print Assumptions C09_nresults_readers_agree.
